@@ -37,3 +37,76 @@ package calculator
 //@   modifies p.accumulatedVoted, p.accumulatedPower
 //@   ensures [voted] p.accumulatedVoted != nil && big(p.accumulatedVoted) == (big(p.delegated) + big(p.bonded)) * termPeriod
 //@   ensures [power] p.accumulatedPower != nil && big(p.accumulatedPower) == big(p.power) * termPeriod
+
+// only the elected, rewardable P-Reps - the first electedPRepCount entries of the ranking - get a
+// share, each computed from the same period fund and the same total accumulated power
+//@ func (p *PRep) IsRewardable(electedPRepCount) (r)
+//@   arith int
+//@   pure
+//@   requires p != nil && p.accumulatedPower != nil
+//@   ensures r == (p.status == icmodule.ESEnable && p.rank < electedPRepCount && big(p.accumulatedPower) > 0)
+//@ func (p *PRepInfo) GetTermPeriod() (r)
+//@   arith int
+//@   pure
+//@   requires p != nil && 0 <= p.offsetLimit && p.offsetLimit < 0x7fffffff
+//@   ensures r == p.offsetLimit + 1
+//@ func (p *PRepInfo) ElectedPRepCount() (r)
+//@   arith int
+//@   pure
+//@   requires p != nil
+//@   ensures r == p.electedPRepCount
+//@ func (p *PRepInfo) GetPRep(key) (r)
+//@   arith int
+//@   pure
+//@   requires p != nil
+//@   ensures r == (p.preps != nil && hasmap(p.preps)[key] ? valmap(p.preps)[key] : nil)
+//@ func (p *PRep) VoterReward() (r)
+//@   arith int
+//@   pure
+//@   requires p != nil
+//@   ensures r == p.voterReward
+//@ func (p *PRep) AccumulatedVoted() (r)
+//@   arith int
+//@   pure
+//@   requires p != nil
+//@   ensures r == p.accumulatedVoted
+//@ func fundToPeriodIScore(reward, period) (r)
+//@   trusted
+//@   pure
+//@   ensures r != nil && fresh(r)
+//@ func (p *PRepInfo) CalculateReward(totalReward, totalMinWage, minBond) (err)
+//@   arith int
+//@   nosafety
+//@   modifies *
+//@   opt no-callee-pre
+//@   opt inline-none
+//@   requires p != nil
+//@   callpre CalculateReward: 0 <= i && i < caller_p.electedPRepCount && i < len(caller_p.rank) && caller_p.rank[i] == p && totalPRepReward == tReward && totalAccumulatedPower == caller_p.totalAccumulatedPower && caller_minBond == minBond && minWage == minWagePerPRep
+//@   callpre CalculateReward: p.status == icmodule.ESEnable && p.rank < caller_p.electedPRepCount
+//@   loop 0: invariant -1 <= rangeindex
+
+// every elected P-Rep (the first electedPRepCount entries of the ranking) starts the term with its
+// full-term accumulated votes and power
+//@ spec rankOK(p) = p != nil && (forall k int :: {p.rank[k]} 0 <= k && k < len(p.rank) ==> p.rank[k] != nil && p.rank[k].delegated != nil && p.rank[k].bonded != nil && p.rank[k].power != nil)
+//@ func (p *PRepInfo) InitAccumulated()
+//@   arith int
+//@   use bigmul_def
+//@   requires rankOK(p) && 0 <= p.offsetLimit && p.offsetLimit < 0x7fffffff
+//@   modifies all(PRep.accumulatedVoted), all(PRep.accumulatedPower)
+//@   ensures [all_elected] forall k int :: {p.rank[k]} 0 <= k && k < len(p.rank) && k < p.electedPRepCount ==> p.rank[k].accumulatedPower != nil && big(p.rank[k].accumulatedPower) == big(p.rank[k].power) * (p.offsetLimit + 1) && p.rank[k].accumulatedVoted != nil && big(p.rank[k].accumulatedVoted) == (big(p.rank[k].delegated) + big(p.rank[k].bonded)) * (p.offsetLimit + 1)
+//@   loop 0: invariant -1 <= rangeindex && rangeindex < len(p.rank) && rankOK(p)
+//@   loop 0: invariant forall k int :: {p.rank[k]} 0 <= k && k <= rangeindex && k < p.electedPRepCount ==> p.rank[k].accumulatedPower != nil && big(p.rank[k].accumulatedPower) == big(p.rank[k].power) * (p.offsetLimit + 1) && p.rank[k].accumulatedVoted != nil && big(p.rank[k].accumulatedVoted) == (big(p.rank[k].delegated) + big(p.rank[k].bonded)) * (p.offsetLimit + 1)
+
+// a voter's reward from a P-Rep: accumulated votes times that P-Rep's voter reward, divided by that
+// P-Rep's accumulated votes, for rewardable P-Reps only
+//@ func (v *Voter) CalculateReward(pInfo) (iScore)
+//@   arith int
+//@   nosafety
+//@   modifies *
+//@   opt no-callee-pre
+//@   opt inline-none
+//@   requires v != nil && pInfo != nil
+//@   callpre Mul: x == av && y == prep.voterReward && prep != nil && prep.status == icmodule.ESEnable && prep.rank < pInfo.electedPRepCount
+//@   callpre Div: z == r && x == r && y == prep.accumulatedVoted
+//@   callpre Add: z == iScore && x == iScore && y == r
+//@   loop 0: invariant true
